@@ -4,6 +4,8 @@ import LitexModel.Bridge.Wb2Axl
 import LitexModel.Bridge.Simple
 import LitexModel.Bridge.Down
 import LitexModel.Bridge.Up
+import LitexModel.Bridge.Ahb2Wb
+import LitexModel.Bridge.Axi2Axl
 /-
   The bridges composed with a memory-behaved partner of arbitrary latency and with the observer of their
   master-side port.  These closed systems are what the `…_refines_mem` theorems of C09 quantify over:
@@ -229,4 +231,91 @@ def serial (g : AxlGhost Unit) (m : AxlM) : Prop :=
 def curWrite (g : AxlGhost Unit) (m : AxlM) : Option Nat := if m.awvalid then some m.awaddr else g.pendAW
 
 end Up
+/-! ### AHB2Wishbone over a Wishbone byte memory -/
+namespace Ahb2Wb
+
+/-- A transfer accepted in an address phase. -/
+structure AhbXfer where
+  addr  : Nat
+  size  : Nat
+  write : Bool
+deriving DecidableEq, Repr
+
+/-- Observer of the AHB port: the transfer whose data phase is open, the write data the master showed in the
+    previous data-phase cycle (it must be kept while `hreadyout` is low), the reference memory. -/
+structure AhbGhost where
+  cur   : Option AhbXfer
+  wdata : Option Nat
+  ref   : Mem
+
+structure Sys where
+  br  : AhbState
+  mem : Mem
+  g   : AhbGhost
+
+variable (c : AhbCfg)
+
+def nb : Nat := 2 ^ c.lg
+
+/-- AHB master rule used here: write data is stable during the extended data phase. -/
+def masterOk (g : AhbGhost) (m : AhbM) : Prop := ∀ d, g.wdata = some d → m.wdata = d
+
+def sysOut (s : Sys) (i : AhbM × WbOracle) : AhbS × WbM × WbS :=
+  let q := toSlave s.br i.1
+  let r := wbMemRsp (nb c) s.mem q i.2
+  (toMaster s.br i.1 r, q, r)
+
+/-- Reference effect of a completed transfer: a write stores `hwdata` on the byte lanes selected by size and
+    address (`ahbSel`) of word `addr >> shift`. -/
+def ghostNext (g : AhbGhost) (m : AhbM) (o : AhbS) : AhbGhost :=
+  let ref' := match g.cur with
+    | some t => if o.readyout && t.write && !o.resp then
+                  g.ref.writeWord (nb c) (t.addr / 2 ^ c.shift) (ahbSel c t.size t.addr) (g.wdata.getD m.wdata)
+                else g.ref
+    | none => g.ref
+  { cur := if o.readyout then (if accepts c m then some { addr := m.addr, size := m.size, write := m.write } else none)
+           else g.cur
+    wdata := if o.readyout then none else (if g.cur.isSome then some (g.wdata.getD m.wdata) else none)
+    ref := ref' }
+
+/-- A completing read returns the reference content of the addressed word. -/
+def memOk (g : AhbGhost) (o : AhbS) : Prop :=
+  ∀ t, g.cur = some t → o.readyout = true → t.write = false → o.rdata = g.ref.readWord (nb c) (t.addr / 2 ^ c.shift)
+
+def sys (mem0 : Mem) : Machine (AhbM × WbOracle) Sys (AhbS × WbM × WbS) where
+  init := { br := init, mem := mem0, g := { cur := none, wdata := none, ref := mem0 } }
+  out := sysOut c
+  next s i :=
+    let o := sysOut c s i
+    { br := next c s.br i.1 o.2.2, mem := wbMemNext (nb c) s.mem o.2.1 i.2, g := ghostNext c s.g i.1 o.1 }
+
+end Ahb2Wb
+/-! ### AXI2AXILite read bursts with an arbitrary AXI-Lite partner and beat counters -/
+namespace Axi2Axl
+
+/-- `arCnt` / `rCnt`: AXI-Lite ARs accepted / R beats delivered since the bridge last left IDLE. -/
+structure RSys where
+  br    : X2LState
+  arCnt : Nat
+  rCnt  : Nat
+
+variable (aw : Nat)
+
+def rsys : Machine (AxiM × AxlS) RSys (AxiS × AxlM) where
+  init := { br := init, arCnt := 0, rCnt := 0 }
+  out s i := (toMaster aw s.br i.1 i.2, toSlave aw s.br i.1)
+  next s i :=
+    let q := toSlave aw s.br i.1
+    let o := toMaster aw s.br i.1 i.2
+    { br := next aw s.br i.1 i.2
+      arCnt := if s.br.st == .idle then 0 else s.arCnt + (if q.arvalid && i.2.arready then 1 else 0)
+      rCnt := if s.br.st == .idle then 0 else s.rCnt + (if o.rvalid && i.1.rready then 1 else 0) }
+
+/-- The AXI-Lite partner answers reads one at a time: it presents R only for an accepted AR and accepts the
+    next AR only after the R of the previous one has been delivered.  AXI4 burst lengths fit 8 bits. -/
+def singleOutstanding (s : RSys) (i : AxiM × AxlS) : Prop :=
+  (i.2.rvalid = true → s.rCnt < s.arCnt) ∧ (i.2.arready = true → s.arCnt = s.rCnt) ∧
+  i.1.ar.len < 256 ∧ i.1.aw.len < 256
+
+end Axi2Axl
 end Litex.Bridge
